@@ -194,7 +194,8 @@ import "time"
 func main() {
 	for i := 0; i < 3; i++ {
 		go func() {
-			time.Sleep("120ms")
+			d := time.ParseDuration("120ms")
+			time.Sleep(d)
 			fmt.Printf("late\\n")
 		}()
 	}
@@ -261,6 +262,21 @@ func main() {
 		return a[i] < a[j]
 	})
 	fmt.Printf("%v\\n", a)
+}
+""",
+    "failing-workers": """package main
+import "fmt"
+import "time"
+func main() {
+	for i := 0; i < 6; i++ {
+		go func(k int) {
+			z := 0
+			fmt.Printf("%d\\n", k / z)
+		}(i)
+	}
+	d := time.ParseDuration("40ms")
+	time.Sleep(d)
+	fmt.Printf("main done\\n")
 }
 """,
     "workers": """package main
@@ -370,8 +386,13 @@ def _harness_run(sd, binp, chunks, tag, settle_ms=60):
         # resource guard of the process: what the model says these jobs leave behind legitimately, plus a margin
         legit = sum(j["reps"] * sum(x["n"] * (1 + x["w"]) for x in j.get("expect") or []) for j in ch)
         env.update(VERIF_IN=jf, VERIF_OUT=tr, VERIF_WORK=w, VERIF_INITPROG=init, EGO_PATH=vf.REPO,
-                   VERIF_SETTLE_MS=str(settle_ms), VERIF_FINAL_EVERY="120", VERIF_MAX_GOROUTINES=str(legit + 150))
-        procs.append(([binp, "-test.run", "^TestVerifC09$", "-test.timeout", "2400s"], None, w, env, tr))
+                   VERIF_SETTLE_MS=str(settle_ms), VERIF_FINAL_EVERY="120", VERIF_MAX_GOROUTINES=str(legit + (150 if all(j["hasexp"] for j in ch) else 600)))
+        # ego derives its runtime path (where the DSN database of the start-up lives) from the directory of argv[0]:
+        # every process gets a private one
+        lnk = os.path.join(w, "c09.test")
+        if not os.path.lexists(lnk):
+            os.symlink(binp, lnk)
+        procs.append(([lnk, "-test.run", "^TestVerifC09$", "-test.timeout", "2400s"], None, w, env, tr))
     res = vf.run_many([p[:4] for p in procs], nproc=4, timeout=2500)
     traces = []
     for (rc, so, se), p in zip(res, procs):
@@ -506,7 +527,8 @@ def run():
         for name, src in sorted(KEYPROGS.items()):
             p = os.path.join(pd, "key-%s.ego" % name)
             open(p, "w").write(src)
-            kjobs.append({"path": "run", "file": p, "key": "key/" + name, "reps": kreps, "hasexp": False, "expect": []})
+            kjobs.append({"path": "run", "file": p, "key": "key/" + name, "reps": min(kreps, 30) if name == "late-goroutine" else kreps,
+                          "hasexp": False, "expect": []})
         for name in EXAMPLES:
             p = os.path.join(vf.REPO, "examples", name + ".ego")
             if os.path.exists(p):
